@@ -251,7 +251,7 @@ var (
 	c04Bal1Devs = []string{"+1", "-1", "nil", "error", "vmerror", "as-expected"}
 	// deviations used alone and in random combinations only
 	c04Bal0Extra = []string{"short"}
-	c04CallExtra = []string{"garbage", "short", "approval-first", "amt+1"}
+	c04CallExtra = []string{"garbage", "short", "approval-first", "amt+1", "custom-then-approval", "custom-approval-first"}
 	c04Bal1Extra = []string{"short"}
 )
 
